@@ -35,7 +35,12 @@ package raftio
 //@ ghost var gImpImageOK bool
 //@ ghost var gImpMembersOK bool
 //@ ghost var gDataMutated bool
+// C16: the log store is told about the imported snapshot only after the snapshot directory has been
+// published under its final name (gPublished is set by a successful SSEnv.FinalizeSnapshot): an
+// interruption in between must never leave the log store naming a directory that start-up removes
+//@ ghost var gPublished bool
 //@ iface (db ILogDB) ImportSnapshot
+//@ requires gPublished [C16 C20]
 //@ ghostset gDataMutated := true
 //@ iface (db ILogDB) Close
 //@ iface (db ILogDB) BinaryFormat
